@@ -108,6 +108,21 @@ CHECKS = {
               'Thorough tier enumerates all 65 536 4x4 patterns and all '
               'smaller shapes; every indices_slice sub-range of each.',
               'DESIGN.md section 2 C13', _BASE_NOTE),
+    'C14': _e('fault_enumeration',
+              'fault injection through a multiprocessing.Process proxy '
+              'installed in each stage module (workers are forks and inherit '
+              'it): every worker x {SIGKILL, os._exit(3), raise} x {before, '
+              'mid-way, after}; monitor on the parent call (must raise), on '
+              'the victim exit code (fault really delivered) and on the '
+              'files left behind (no results / CSV / success message; '
+              'partial stage outputs fed to the next stage\'s reader)',
+              'Thorough tier enumerates the full (stage, worker, mode, '
+              'point) product on a small input; quick tier covers every '
+              '(stage, mode, point) on a rotating worker.',
+              'DESIGN.md section 2 C14',
+              _BASE_NOTE + ' Mid-way = first call of one inner function of '
+              'the stage inside the victim; crash points inside C '
+              'extensions (HDF5 writes) are not separately enumerated.'),
     'C15': _e('exploration',
               'cross-file consistency monitor over the JSON, CSV (csv '
               'module) and HDF5 (hdf5_to_blob) outputs of generated runs, '
